@@ -3,6 +3,7 @@
   C11: what they emit).
 -/
 import StVerif.Lemmas.FmtParse
+import StVerif.Lemmas.UtfRef
 
 namespace StVerif.Lemmas.Fmt
 open StVerif StVerif.Fmt
@@ -33,17 +34,37 @@ theorem formatChar_cases (f : FormatSpec) (ch : Int) :
 def AssertClass (w : String) : Prop :=
   w = charPaddingMsg ∨ w = libcSizeMsg
 
-/-- every non-floating formatter returns output or the char-padding assertion; the floating-point
-    formatter is a parameter of the statement -/
-theorem formatType_sat_core (a : Arg) (f : FormatSpec) (A : String → Prop) (hcp : A charPaddingMsg)
-    (hfloat : ∀ r, a = .float r → Sat (fun _ => True) (fun _ => False) A (formatFloat f r)) :
-    Sat (fun _ => True) (fun _ => False) A (formatType a f) := by
-  have hc : ∀ ch, Sat (fun _ => True) (fun _ => False) A (formatChar f ch) := by
+/-- building the `ST::string` of a wide-text argument (units in the range of their type, below the
+    documented size limit) yields its bytes or `unicode_error` — never `oob`, `ub`, an assertion -/
+theorem wide_stringFrom_cases (src : Utf.Enc) (us : List Nat) (hw : (Arg.wide src us).WideOk) :
+    (∃ bs, Utf.stringFrom src .checkValidity (some us) = .ok bs) ∨
+      Utf.stringFrom src .checkValidity (some us) = .throw .unicodeError := by
+  obtain ⟨hsrc, hlen⟩ := hw
+  rcases hsrc with ⟨rfl, hu⟩ | ⟨rfl, hu⟩
+  · have := StVerif.Lemmas.Utf.convert_eq_reference .utf16 .utf8 (by decide) .checkValidity true us hu hlen
+    simp only [Utf.stringFrom, this, Spec.Unicode.reference]
+    cases Spec.Unicode.refSteps .utf16 .utf8 .checkValidity true (Spec.Unicode.seg .utf16 us) with
+    | some out => exact Or.inl ⟨out, rfl⟩
+    | none => exact Or.inr rfl
+  · have := StVerif.Lemmas.Utf.convert_eq_reference .utf32 .utf8 (by decide) .checkValidity true us hu hlen
+    simp only [Utf.stringFrom, this, Spec.Unicode.reference]
+    cases Spec.Unicode.refSteps .utf32 .utf8 .checkValidity true (Spec.Unicode.seg .utf32 us) with
+    | some out => exact Or.inl ⟨out, rfl⟩
+    | none => exact Or.inr rfl
+
+/-- every non-floating formatter returns output, the char-padding assertion or — wide text that the
+    default validation rejects — `unicode_error`; the floating-point formatter is a parameter of the
+    statement -/
+theorem formatType_sat_core (a : Arg) (f : FormatSpec) (E : Exc → Prop) (A : String → Prop) (hE : E .unicodeError)
+    (hcp : A charPaddingMsg) (hw : a.WideOk)
+    (hfloat : ∀ r, a = .float r → Sat (fun _ => True) E A (formatFloat f r)) :
+    Sat (fun _ => True) E A (formatType a f) := by
+  have hc : ∀ ch, Sat (fun _ => True) E A (formatChar f ch) := by
     intro ch
     rcases formatChar_cases f ch with ⟨_, h⟩ | ⟨_, ev, h⟩ <;> rw [h] <;> simp [Sat, hcp]
-  have hs : ∀ v, f.digitClass ≠ .chr → Sat (fun _ => True) (fun _ => False) A (formatNumericS f v) := by
+  have hs : ∀ v, f.digitClass ≠ .chr → Sat (fun _ => True) E A (formatNumericS f v) := by
     intro v h; obtain ⟨ev, he⟩ := formatNumericS_ok f v h; rw [he]; trivial
-  have hu : ∀ v, f.digitClass ≠ .chr → Sat (fun _ => True) (fun _ => False) A (formatNumericU f v) := by
+  have hu : ∀ v, f.digitClass ≠ .chr → Sat (fun _ => True) E A (formatNumericU f v) := by
     intro v h; obtain ⟨ev, he⟩ := formatNumericU_ok f v h; rw [he]; trivial
   cases a with
   | sint w v => simp only [formatType]; split; exact hc _; exact hs _ ‹_›
@@ -60,12 +81,16 @@ theorem formatType_sat_core (a : Arg) (f : FormatSpec) (A : String → Prop) (hc
   | bool b => simp [formatType, Sat]
   | str bs => simp [formatType, Sat]
   | nullStr => simp [formatType, Sat]
+  | wide src us =>
+    simp only [formatType]
+    rcases wide_stringFrom_cases src us hw with ⟨bs, h⟩ | h <;> rw [h] <;> simp [Outcome.bind, Sat, hE]
   | float r => simp only [formatType]; exact hfloat r rfl
 
-/-- every formatter returns output or one of two assertion messages; never `ub`, `oob`,
-    `stuck`, never an exception -/
-theorem formatType_sat_all (a : Arg) (f : FormatSpec) : Sat (fun _ => True) (fun _ => False) AssertClass (formatType a f) := by
-  refine formatType_sat_core a f AssertClass (Or.inl rfl) ?_
+/-- every formatter returns output, `unicode_error` (wide text only) or one of two assertion
+    messages; never `ub`, `oob`, `stuck` -/
+theorem formatType_sat_all (a : Arg) (f : FormatSpec) (hw : a.WideOk) :
+    Sat (fun _ => True) (· = .unicodeError) AssertClass (formatType a f) := by
+  refine formatType_sat_core a f _ AssertClass rfl (Or.inl rfl) hw ?_
   intro r _
   simp only [formatFloat]
   repeat' split
@@ -73,9 +98,9 @@ theorem formatType_sat_all (a : Arg) (f : FormatSpec) : Sat (fun _ => True) (fun
 
 /-- when libc reports a size for every rendering (of whatever length), the only assertion left is
     the documented one -/
-theorem formatType_sat (a : Arg) (f : FormatSpec) (hfl : a.LibcRenders) :
-    Sat (fun _ => True) (fun _ => False) (· = charPaddingMsg) (formatType a f) := by
-  refine formatType_sat_core a f _ rfl ?_
+theorem formatType_sat (a : Arg) (f : FormatSpec) (hfl : a.LibcRenders) (hw : a.WideOk) :
+    Sat (fun _ => True) (· = .unicodeError) (· = charPaddingMsg) (formatType a f) := by
+  refine formatType_sat_core a f _ _ rfl rfl hw ?_
   intro r hr
   subst hr
   have h := hfl f.alwaysSigned (if f.precision ≥ 0 then some f.precision.toNat else none) f.floatClass
@@ -86,7 +111,7 @@ theorem formatType_sat (a : Arg) (f : FormatSpec) (hfl : a.LibcRenders) :
 
 /-- the documented assertion is raised exactly when the character class meets a width or a pad
     character on an integer or character argument -/
-theorem formatType_assert_iff (a : Arg) (f : FormatSpec) (hfl : a.LibcRenders) :
+theorem formatType_assert_iff (a : Arg) (f : FormatSpec) (hfl : a.LibcRenders) (hw : a.WideOk) :
     (∃ w, formatType a f = .assertFail w) ↔
       (a.IsIntegral = true ∧ f.digitClass = .chr ∧ (f.minimumLength ≠ 0 ∨ f.pad ≠ 0)) := by
   have hc : ∀ ch, (∃ w, formatChar f ch = .assertFail w) ↔ (f.minimumLength ≠ 0 ∨ f.pad ≠ 0) := by
@@ -111,6 +136,9 @@ theorem formatType_assert_iff (a : Arg) (f : FormatSpec) (hfl : a.LibcRenders) :
   | bool b => simp [formatType, Arg.IsIntegral]
   | str bs => simp [formatType, Arg.IsIntegral]
   | nullStr => simp [formatType, Arg.IsIntegral]
+  | wide src us =>
+    simp only [formatType, Arg.IsIntegral]
+    rcases wide_stringFrom_cases src us hw with ⟨bs, h⟩ | h <;> rw [h] <;> simp [Outcome.bind]
   | float r =>
     have h := hfl f.alwaysSigned (if f.precision ≥ 0 then some f.precision.toNat else none) f.floatClass
     simp only [formatType, formatFloat, Arg.IsIntegral]
@@ -118,9 +146,9 @@ theorem formatType_assert_iff (a : Arg) (f : FormatSpec) (hfl : a.LibcRenders) :
     repeat' split
     all_goals simp
 
-theorem formattersOf_ok (args : List Arg) (A : FormatSpec → String → Prop)
-    (h : ∀ a ∈ args, ∀ f, Sat (fun _ => True) (fun _ => False) (A f) (formatType a f)) :
-    FormattersOk args.length (formattersOf args) A := by
+theorem formattersOf_ok (args : List Arg) (E : Exc → Prop) (A : FormatSpec → String → Prop)
+    (h : ∀ a ∈ args, ∀ f, Sat (fun _ => True) E (A f) (formatType a f)) :
+    FormattersOk args.length (formattersOf args) E A := by
   intro id spec hid
   simp only [formattersOf, List.getElem?_eq_getElem hid]
   exact h _ (List.getElem_mem hid) spec
